@@ -8,6 +8,10 @@ Sub-checks
             compat form / in-process CLI main([...]) (file written with the loader's own format and RE-LOADED) agree on
             verdict, message lines, normalised dict and warnings; accepted => every documented range / enumeration /
             cross-field rule of the frozen table holds on the normalised output (NaN satisfies no range).
+            1 case in 4 carries edits that make the validator REPEAT a message (apply_dup): the message list is compared
+            entry for entry (order, multiplicity) between the variants, the compat form under every keyword spelling, and
+            the in-process CLI in its text / --json / --strict / STDIN ('-') forms, YAML and JSON documents, for both
+            clematis.scripts.validate and the repository's scripts/validate_config.py.
   leafwise  EXHAUSTIVE single-leaf enumeration: every leaf of the frozen table x every pool value (valid incl. boundaries
             and large magnitudes / just outside / wrong type / NaN, inf, 10**400 ...), every section x every scalar/list
             replacement, every top-level unknown key (typos, random, non-string). Same validator oracles; additionally a
@@ -17,10 +21,14 @@ Sub-checks
             message lines must be identical in all of them.
   cli       sample of real subprocesses: `python -m clematis validate FILE`, `python -m clematis validate --json FILE`,
             `python -m clematis.scripts.validate FILE` (rotating PYTHONHASHSEED) against the in-process verdict/messages/
-            normalised dict of the re-loaded file.
+            normalised dict of the re-loaded file; two more forms per case in rotation (scripts/validate_config.py, '-'
+            STDIN, --strict through the umbrella, the default path configs/config.yaml); fixed anchors incl. rejected
+            configs whose message list repeats an entry.
   runnable  accepted configs built constructively from the frozen table (in-range values incl. boundaries and large
-            magnitudes, >= 3 leaves off default) => (a) the validator accepts what the table documents as valid,
-            (b) two real orchestrator turns on a small non-trivial world do not raise.
+            magnitudes, >= 3 leaves off default; curated switch SETS such as perf.enabled + report_memory + quality.shadow,
+            and for every switch that is on a few leaves of the subtree it governs; numbers on the boundaries inside the
+            t1.decay / t1.edge_type_mult mappings) => (a) the validator accepts what the table documents as valid,
+            (b) two or three real orchestrator turns on a small non-trivial world do not raise.
   atheris   optional byte target (fuzz/c14_validate_fuzz.py) building the same shapes, same oracle as `total`.
 
 The key tree / ranges below are a FROZEN transcription (pinned commit) of docs/m13/config_freeze.md (top level),
@@ -31,6 +39,7 @@ from __future__ import annotations
 
 import contextlib
 import copy
+import datetime
 import io
 import json
 import math
@@ -50,9 +59,10 @@ LEVEL = "exploration"
 RULE = ("leafwise: exhaustive product (table leaf x pool value; section x replacement; top-level unknown keys), distinct by "
         "construction, non-trivial = every non-valid class. total/hashseed/cli/atheris: Hypothesis (or byte-decoded) nested mappings over the frozen v1 key tree: 0-8 leaf "
         "assignments drawn from {valid, boundary, just outside, wrong type (None/str/list/dict/bool), NaN/+-inf, 10**400, "
-        "negative, empty containers} plus 0-3 structural edits {near-miss typo of a sibling key, random string key, "
-        "non-string key (int/None/tuple/bool/float), section replaced by scalar/list/empty}. Non-trivial = the input has "
-        ">=1 invalid leaf, unknown key or mangled section. runnable: accepted configs constructed from the table "
+        "negative, empty containers; near-valid spellings of the pass-through leaves} plus 0-3 structural edits {near-miss typo "
+        "of a sibling key, random string key, non-string key (int/None/tuple/bool/float), section replaced by scalar/list/empty} "
+        "plus, in 1 case of 4, 1-2 edits after which the validator's message list repeats an entry (label dup_message_lines). "
+        "Non-trivial = the input has >=1 invalid leaf, unknown key or mangled section. runnable: accepted configs constructed from the table "
         "(cross-field groups drawn jointly); non-trivial = normalised config differs from the default in >=3 leaves and "
         "both turns executed (network configs t3.backend=llm+provider=ollama are counted and skipped). Distinct = digest "
         "of the encoded input (runnable: config + world + texts).")
@@ -64,7 +74,16 @@ ASSUMPTIONS = [
     "CLI comparison uses the file as re-loaded by yaml.safe_load (loader quirks are not blamed on the validator); inputs "
     "PyYAML cannot represent (tuple keys) are skipped for the CLI oracles and counted",
     "message comparison is on the stripped message text; suggestion hints are part of the message",
-    "runnability world: 1 graph (3-4 labelled nodes, 3-5 edges), 3-6 episodes, bag-of-words encoder, 2 turns",
+    "runnability world: 1-2 active graphs (3-4 labelled nodes, 3-5 edges; 2 nodes, 2 edges), 3-6 episodes, bag-of-words encoder, 2-3 turns",
+    "documented domain of the pass-through leaves the stages read (t1.radius_cap, k_surface, t2.exact_recent_days / clusters_top_m / "
+    "residual_cap_per_turn, t2.tiers, t1.decay, t1.edge_type_mult) = the validator's own 'must be ...' messages (PASSTHROUGH_RANGES)",
+    "t1.decay documented domain (since repo fix 5619523): rate, floor in [0, 1], alpha >= 0; numbers beyond are drawn too "
+    "(whatever the validator still accepts must run)",
+    "YAML-native scalars (date / datetime / bytes / set, what yaml.safe_load returns for a timestamp, !!binary, !!set) are leaf values "
+    "and (date / datetime / bytes) mapping keys everywhere, also inside accepted pass-through mappings; `--json` may render them any way "
+    "(wildcards in the comparison of the normalised dict)",
+    "no input makes the validator emit the same WARNING twice (all warning texts are distinct constants), so warning multiplicity is "
+    "compared (sorted list equality) but cannot be exercised",
 ]
 
 NAN = float("nan")
@@ -307,6 +326,15 @@ def enc(x):
         if all(isinstance(k, str) and not k.startswith("__") for k in x):
             return {k: enc(v) for k, v in x.items()}
         return {"__map__": [[enc(k), enc(v)] for k, v in x.items()]}
+    # YAML-native scalars (what yaml.safe_load returns for a timestamp, !!binary, !!set)
+    if isinstance(x, datetime.datetime):
+        return {"__datetime__": x.isoformat()}
+    if isinstance(x, datetime.date):
+        return {"__date__": x.isoformat()}
+    if isinstance(x, bytes):
+        return {"__bytes__": x.hex()}
+    if isinstance(x, (set, frozenset)):
+        return {"__set__": [enc(v) for v in sorted(x, key=repr)]}
     raise TypeError(f"c14.enc: unsupported {type(x).__name__}")
 
 
@@ -322,6 +350,14 @@ def dec(x):
             return tuple(dec(v) for v in x["__tuple__"])
         if set(x) == {"__map__"}:
             return {dec(k): dec(v) for k, v in x["__map__"]}
+        if set(x) == {"__datetime__"}:
+            return datetime.datetime.fromisoformat(x["__datetime__"])
+        if set(x) == {"__date__"}:
+            return datetime.date.fromisoformat(x["__date__"])
+        if set(x) == {"__bytes__"}:
+            return bytes.fromhex(x["__bytes__"])
+        if set(x) == {"__set__"}:
+            return set(dec(v) for v in x["__set__"])
         return {k: dec(v) for k, v in x.items()}
     return x
 
@@ -332,6 +368,8 @@ def canon(x):
         return ("d", sorted(((type(k).__name__, repr(k)), canon(v)) for k, v in x.items()))
     if isinstance(x, (list, tuple)):
         return ("l" if isinstance(x, list) else "t", [canon(v) for v in x])
+    if isinstance(x, (set, frozenset)):
+        return ("s", sorted(repr(canon(v)) for v in x))
     if isinstance(x, float):
         return ("f", repr(x))
     return (type(x).__name__, repr(x))
@@ -343,6 +381,8 @@ def snapshot(x):
         return ("d", id(x), [((type(k).__name__, repr(k)), snapshot(v)) for k, v in x.items()])
     if isinstance(x, (list, tuple)):
         return ("l" if isinstance(x, list) else "t", id(x), [snapshot(v) for v in x])
+    if isinstance(x, (set, frozenset)):
+        return ("s", id(x), sorted(repr(canon(v)) for v in x))
     if isinstance(x, float):
         return ("f", repr(x))
     return (type(x).__name__, repr(x))
@@ -363,6 +403,12 @@ def has_nonstring_key(x) -> bool:
 WRONG = [None, "abc", "12", "", " ", [], [1, 2], ["a"], {}, {"a": 1}, True, False]
 SPECIAL = [NAN, INF, -INF, BIG, -BIG, -1, 0, -0.0, 1e308, 5e-324, -1e-9, "nan", "inf", "-inf", "1e999", "NaN", 2 ** 63,
            -2 ** 63 - 1, 1.5, -2.5]
+
+
+# YAML-native scalars: a timestamp, !!binary and !!set load as date / datetime / bytes / set (JSON has no such values)
+# (a set of >= 2 members: str(set) follows PYTHONHASHSEED, the validator must not echo / stringify it that way)
+NATIVE = [datetime.date(2024, 1, 1), datetime.datetime(2024, 1, 1, 12, 30, 0), b"hello", b"", {"a", "b"}, {"a"}, set()]
+NATIVE_KEYS = [datetime.date(2024, 1, 1), datetime.datetime(2001, 12, 14, 21, 59, 43), b"hello"]
 
 
 def _valid_values(spec, big=False):
@@ -458,9 +504,15 @@ def leaf_values(spec):
     return st.one_of(
         st.tuples(st.just("valid"), st.sampled_from(valid)),
         st.tuples(st.just("valid"), st.sampled_from(valid)),
+        st.tuples(st.just("valid"), st.sampled_from(valid)),
+        st.tuples(st.just("valid"), st.sampled_from(valid)),
+        st.tuples(st.just("outside"), st.sampled_from(outside)),
         st.tuples(st.just("outside"), st.sampled_from(outside)),
         st.tuples(st.just("wrongtype"), st.sampled_from(WRONG)),
+        st.tuples(st.just("wrongtype"), st.sampled_from(WRONG)),
         st.tuples(st.just("special"), st.sampled_from(SPECIAL)),
+        st.tuples(st.just("special"), st.sampled_from(SPECIAL)),
+        st.tuples(st.just("native"), st.sampled_from(NATIVE)),
     ).map(lambda cv: (cv[0], copy.deepcopy(cv[1])))
 
 
@@ -506,6 +558,109 @@ def _descend(cfg, path, create=True):
     return d if isinstance(d, dict) else None
 
 
+# ---------------------------------------------------------------- inputs that make the validator REPEAT a message
+# The error list is a list, not a set: the same text may occur more than once (the same problem flagged by two checks, one
+# entry per offending list element / mapping key, keys 7 and "7" rendering alike, echoed keys that contain "\n" and share
+# a tail).  Every variant and the CLI must report such a list entry for entry: same multiplicity, same order.
+
+class _HypChooser:
+    def __init__(self, draw):
+        self._draw = draw
+
+    def choice(self, seq):
+        return self._draw(st.sampled_from(list(seq)))
+
+
+DUP_KINDS = ["fixtures", "namespaces", "partitions_by", "cooldowns_nonstr", "cooldowns_collide", "key_collide", "key_collide",
+             "newline_tail"]
+_COLLIDE_KEYS = [7, 0, None, True, False, 1.5, -3]  # k and str(k) are different keys that render identically in a message
+_UNKNOWN_VALS = [1, {}, None, "v", [1]]
+
+
+def _spread(ch, item, k, others):
+    """`item` k times among `others`: adjacent / split / at both ends (adjacent-only de-duplication differs from global)."""
+    how = ch.choice(["adjacent", "split", "ends"])
+    others = list(others)
+    if how == "adjacent" or not others:
+        return others + [item] * k if ch.choice([True, False]) else [item] * k + others
+    if how == "split":
+        return [item] + others + [item] * (k - 1)
+    return [item] * (k - 1) + others + [item]
+
+
+def apply_dup(ch, cfg, labels):
+    """One edit of `cfg` (in place) after which the validator's error list repeats an entry / a line.  `ch.choice(seq)`."""
+    kind = ch.choice(DUP_KINDS)
+    if kind == "fixtures":  # blank path flagged by the fixtures block AND by the reflection(llm) cross-check
+        t3 = _descend(cfg, ("t3",))
+        rf = _descend(cfg, ("t3", "reflection"))
+        fx = _descend(cfg, ("t3", "llm", "fixtures"))
+        if t3 is None or rf is None or fx is None:
+            return
+        t3["allow_reflection"] = ch.choice([True, "yes", 1, "on"])
+        rf["backend"] = ch.choice(["llm", "LLM"])
+        fx["enabled"] = ch.choice([True, "true", 1])
+        p = ch.choice(["", "  ", None, _MISSING, 5, []])
+        if p is _MISSING:
+            fx.pop("path", None)
+        else:
+            fx["path"] = copy.deepcopy(p)
+    elif kind == "namespaces":  # one entry per offending list element
+        c = _descend(cfg, ("t4", "cache"))
+        if c is None:
+            return
+        u = ch.choice(["zz", "T2:SEMANTIC", "t2:semantic ", "", "x y", "a\rb"])
+        c["namespaces"] = _spread(ch, u, ch.choice([2, 2, 3]), ch.choice([[], ["t2:semantic"], ["other"], ["t2:semantic", "other"]]))
+    elif kind == "partitions_by":
+        d = _descend(cfg, ("perf", "t2", "reader", "partitions"))
+        if d is None:
+            return
+        f = ch.choice(["month", "Owner", "zz", "owner ", "q r"])
+        d["by"] = _spread(ch, f, ch.choice([2, 2, 3]), ch.choice([[], ["owner"], ["quarter", "other"], ["owner", "quarter"]]))
+    elif kind == "cooldowns_nonstr":  # one "keys must be strings" entry per non-string key
+        t4 = _descend(cfg, ("t4",))
+        if t4 is None:
+            return
+        pool = [2, 7, None, 1.5, -3, True]
+        n = ch.choice([2, 2, 3])
+        keys = []
+        for _ in range(n):  # distinct keys (an exhausted byte reader keeps answering 0: no retry loop)
+            rest = [k for k in pool if not any(k is q for q in keys)]
+            keys.append(ch.choice(rest))
+        cd = {"EditGraph": 1} if ch.choice([True, False]) else {}
+        for k in keys:
+            cd[k] = ch.choice([0, 3, -1])
+        t4["cooldowns"] = cd
+    elif kind == "cooldowns_collide":  # t4.cooldowns[1] for the keys 1 and "1"
+        t4 = _descend(cfg, ("t4",))
+        if t4 is None:
+            return
+        k = ch.choice([1, None, True, 2.5])
+        pair = [(k, -1), (str(k), -2)]
+        if ch.choice([True, False]):
+            pair.reverse()
+        t4["cooldowns"] = dict(pair)
+    elif kind == "key_collide":  # unknown keys 7 and "7" of one section: "<sec>.7 unknown key" twice
+        sec = ch.choice(SECTION_PATHS)
+        d = _descend(cfg, sec)
+        if d is None:
+            return
+        k = ch.choice(_COLLIDE_KEYS)
+        first, second = (k, str(k)) if ch.choice([True, False]) else (str(k), k)
+        d[first] = copy.deepcopy(ch.choice(_UNKNOWN_VALS))
+        if ch.choice([True, False]):
+            d["zzz"] = 1  # another message in between
+        d[second] = copy.deepcopy(ch.choice(_UNKNOWN_VALS))
+    else:  # newline_tail: echoed keys "p\nTAIL" and "q\nTAIL" -> the LINE "TAIL unknown key" twice
+        tail = ch.choice(["b", "zz", "t1.iter_cap must be >= 0", ""])
+        secs = [p for p in SECTION_PATHS if p]
+        for head in ("p", "q"):
+            d = _descend(cfg, ch.choice(secs))
+            if d is not None:
+                d[head + "\n" + tail] = copy.deepcopy(ch.choice(_UNKNOWN_VALS))
+    labels.update(["dup_built", "dup_" + kind, "unknown_key" if kind in ("key_collide", "newline_tail") else "invalid_leaf"])
+
+
 @st.composite
 def cfg_inputs(draw):
     """(cfg, meta) — meta = labels describing what was built."""
@@ -522,12 +677,18 @@ def cfg_inputs(draw):
         else:
             path = draw(st.sampled_from(LEAF_PATHS))
         cls, val = draw(leaf_values(LEAVES[path]))
+        if path in _FREE_NEAR and draw(st.sampled_from([True, False, False])):
+            # almost-documented spellings of a pass-through leaf (numbers as text / ints / bools): accepted or not, the input
+            # must come back untouched and every variant must agree
+            cls, val = "near", copy.deepcopy(draw(st.sampled_from(_FREE_NEAR[path])))
+        elif path in _PATH_OUTSIDE and draw(st.sampled_from([True, False, False])):
+            cls, val = "outside", copy.deepcopy(draw(st.sampled_from(_PATH_OUTSIDE[path])))
         d = _descend(cfg, path[:-1])
         if d is None:
             continue
         d[path[-1]] = val
         labels.add("leaf_" + cls)
-        if cls != "valid":
+        if cls not in ("valid", "near"):
             labels.add("invalid_leaf")
         if isinstance(val, float) and val != val:
             labels.add("nan_leaf")
@@ -561,7 +722,7 @@ def cfg_inputs(draw):
             d[draw(st.sampled_from(RANDOM_KEYS))] = val
             labels.update(["unknown_key", "random_key"])
         elif op == "nonstr":
-            k = draw(st.sampled_from(NONSTR_KEYS))
+            k = draw(st.sampled_from(NONSTR_KEYS + NATIVE_KEYS))
             d[k] = val
             labels.update(["unknown_key", "nonstring_key", "nonstring_key_" + type(k).__name__])
         else:  # non-string key inside a pass-through (free) mapping: documented as accepted unvalidated
@@ -570,8 +731,12 @@ def cfg_inputs(draw):
             dd = _descend(cfg, p[:-1])
             if dd is None:
                 continue
-            dd[p[-1]] = {draw(st.sampled_from([1, None, True, 2.5])): 1, "a": 2}
-            labels.add("free_nonstring_key")
+            k = draw(st.sampled_from([1, None, True, 2.5] + NATIVE_KEYS))
+            dd[p[-1]] = {k: 1, "a": 2}
+            labels.update(["free_nonstring_key"] + (["free_native_key"] if k in NATIVE_KEYS else []))
+    # 1 case in 4: one or two edits that make the validator repeat a message (different kinds interleave)
+    for _ in range(draw(st.sampled_from([0, 0, 0, 0, 0, 0, 1, 2]))):
+        apply_dup(_HypChooser(draw), cfg, labels)
     top = draw(st.sampled_from(["dict"] * 30 + ["nondict"]))
     if top == "nondict":
         cfg = copy.deepcopy(draw(st.sampled_from([None, [], [1], "abc", 5, 0, NAN, True, [{"t1": {}}], ""])))
@@ -679,13 +844,39 @@ def holds(spec, v) -> bool:
     if kind == "cooldowns":
         return isinstance(v, dict) and all(isinstance(k, str) and isinstance(x, int) and not isinstance(x, bool) and x >= 0
                                            for k, x in v.items())
+    if kind == "decay":  # object with string keys; mode from the enumeration; rate, floor numbers in [0, 1]; alpha a number >= 0
+        return (isinstance(v, dict) and all(isinstance(k, str) for k in v) and ("mode" not in v or v["mode"] in ("exp_floor", "attn_quad"))
+                and all(_is_num(v[k]) and 0.0 <= float(v[k]) <= hi for k, hi in (("rate", 1.0), ("floor", 1.0), ("alpha", INF)) if k in v))
+    if kind == "numdict":  # relation name -> number
+        return isinstance(v, dict) and all(isinstance(k, str) and _is_num(x) for k, x in v.items())
     return True  # free / alias
+
+
+# Leaves the stages read directly; the validator documents their domain in its own messages ("t1.radius_cap must be an
+# integer >= 0", "t2.tiers must be a list of strings", "t1.decay.rate must be a number" ...).  The generator keeps treating
+# them as free-form (so junk keeps being thrown at them); an ACCEPTED config must satisfy the documented domain.
+PASSTHROUGH_RANGES = {
+    ("t1", "radius_cap"): I(0), ("k_surface",): I(1), ("t2", "exact_recent_days"): I(0), ("t2", "clusters_top_m"): I(0),
+    ("t2", "residual_cap_per_turn"): I(0), ("t2", "tiers"): SL(), ("t1", "decay"): ("decay",), ("t1", "edge_type_mult"): ("numdict",),
+}
+
+
+def _is_num(v) -> bool:
+    """A number in the validator's documented sense: int/float or numeric text, not a bool, not NaN."""
+    if isinstance(v, bool) or not isinstance(v, (int, float, str)):
+        return False
+    try:
+        f = float(v)
+    except (ValueError, OverflowError):
+        return False
+    return f == f
 
 
 def check_ranges(norm, case, rec):
     if get_path(norm, ("version",)) != "v1":
         raise Violation(f"accepted config has version {get_path(norm, ('version',))!r}", case, "range:version")
     for path, spec in LEAVES.items():
+        spec = PASSTHROUGH_RANGES.get(path, spec)
         v = get_path(norm, path, _MISSING)
         if v is _MISSING:
             continue
@@ -741,6 +932,9 @@ def _call(fn, cfg, case, what, rec, snap0, ConfigError, **kw):
     return res
 
 
+COMPAT_KWARGS = [{"strict": False}, {"verbose": True}, {"strict": False, "verbose": False}]
+
+
 def validator_view(cfg, case, rec):
     """Run every in-process API variant on the SAME object; check totality, purity and mutual agreement.
     Returns None (known failure mode hit) or {"ok": bool, "lines": [...], "norm": dict|None, "warnings": [...]}"""
@@ -753,10 +947,13 @@ def validator_view(cfg, case, rec):
     r_api = _call(validate_config_api, cfg, case, "validate_config_api", rec, snap0, ConfigError)
     r_verb = _call(validate_config_verbose, cfg, case, "validate_config_verbose", rec, snap0, ConfigError)
     r_compat = _call(validate_config, cfg, case, "validate_config(strict=True)", rec, snap0, ConfigError, strict=True)
+    # the compat form is selected by the presence of ANY keyword (strict / verbose, whatever their value)
+    r_compat_more = [(kw, _call(validate_config, cfg, case, f"validate_config({', '.join(f'{k}={v}' for k, v in kw.items())})", rec, snap0,
+                                ConfigError, **kw)) for kw in COMPAT_KWARGS]
     r_again = _call(validate_config_api, cfg, case, "validate_config_api (2nd call)", rec, snap0, ConfigError)
     if canon(V.DEFAULTS) != defaults0:
         raise Violation("validation modified the module-level DEFAULTS table (not pure)", case, "mutates-defaults")
-    rs = [r_plain, r_api, r_verb, r_compat, r_again]
+    rs = [r_plain, r_api, r_verb, r_compat, r_again] + [r for _, r in r_compat_more]
     if any(r[0] == "known" for r in rs):
         if not all(r[0] == "known" for r in rs):
             raise Violation("API variants disagree: some raise TypeError for the non-string key, others do not", case, "variants-disagree")
@@ -769,6 +966,10 @@ def validator_view(cfg, case, rec):
         raise Violation(f"compat form must return (errors, warnings); got {r_compat!r:.200}", case, "compat-shape")
     ok_api, errs_api, norm_api = r_api[1]
     errs_c, warns_c = r_compat[1]
+    for kw, r in r_compat_more:
+        if r[0] != "ok" or canon(r[1]) != canon(r_compat[1]):
+            raise Violation(f"compat form validate_config(cfg, **{kw}) differs from validate_config(cfg, strict=True): "
+                            f"{r!r:.300} vs {r_compat!r:.300}", case, "compat-kwargs-disagree")
     accepted = r_plain[0] == "ok"
     verdicts = {"validate_config": accepted, "validate_config_api": bool(ok_api), "validate_config_verbose": r_verb[0] == "ok",
                 "compat": not errs_c}
@@ -824,13 +1025,62 @@ def yaml_roundtrip(cfg):
     return text, (loaded or {})
 
 
-def _run_main(argv):
-    from clematis.scripts import validate as cli_mod
+def json_roundtrip(cfg):
+    """The same input as a JSON document (the loader takes YAML or JSON), re-loaded the way the CLI loads a file.
+    None when JSON cannot carry it faithfully (non-string keys, tuples) or the loader refuses the text."""
+    import yaml
+
+    if has_nonstring_key(cfg):
+        return None
+    try:
+        text = json.dumps(cfg, ensure_ascii=False)
+        loaded = yaml.safe_load(text)
+    except yaml.YAMLError:
+        return None
+    except (ValueError, TypeError, OverflowError, RecursionError):
+        return None
+    return text, (loaded or {})
+
+
+_ROOT_SCRIPT = {}
+
+
+def root_script_module():
+    """<repo>/scripts/validate_config.py (the documented entry point CI calls; twin of the packaged shim), loaded by path.
+    None when the tree does not ship it."""
+    path = os.path.join(_repo(), "scripts", "validate_config.py")
+    if path not in _ROOT_SCRIPT:
+        mod = None
+        if os.path.isfile(path):
+            import importlib.util
+
+            spec = importlib.util.spec_from_file_location("c14_root_validate_config", path)
+            mod = importlib.util.module_from_spec(spec)
+            spec.loader.exec_module(mod)
+            if not callable(getattr(mod, "main", None)):
+                mod = None
+        _ROOT_SCRIPT[path] = mod
+    return _ROOT_SCRIPT[path]
+
+
+def _run_main(argv, mod=None, stdin_text=None):
+    if mod is None:
+        from clematis.scripts import validate as mod
 
     out, err = io.StringIO(), io.StringIO()
-    with contextlib.redirect_stdout(out), contextlib.redirect_stderr(err):
-        rc = cli_mod.main(argv)
+    old_stdin = sys.stdin
+    if stdin_text is not None:
+        sys.stdin = io.StringIO(stdin_text)
+    try:
+        with contextlib.redirect_stdout(out), contextlib.redirect_stderr(err):
+            rc = mod.main(argv)
+    finally:
+        sys.stdin = old_stdin
     return rc, out.getvalue(), err.getvalue()
+
+
+def has_dup_lines(view) -> bool:
+    return bool(view) and not view["ok"] and len(set(view["lines"])) < len(view["lines"])
 
 
 def expected_text(view) -> str:
@@ -852,12 +1102,72 @@ def compare_cli_text(rc, out, view, case, who, rec=None, hints_may_differ=False)
         raise Violation(f"{who}: in-process verdict is REJECT but exit={rc}, stdout starts {out[:60]!r}", case, "cli-verdict")
     want = expected_text(view).strip()
     got = out.strip()
-    if got != want:
+    if got != want:  # entry for entry: same messages, same order, same multiplicity
         if hints_may_differ and strip_hints(got) == strip_hints(want):
             if _is_known(rec, KNOWN_HINT):
                 return
             raise Violation(f"{who}: suggestion text differs between processes: cli={got!r} in-process={want!r}", case, "hint-differs")
-        raise Violation(f"{who}: message lines differ: cli={got!r} api={want!r}", case, "cli-messages")
+        gl, wl = got.split("\n")[1:], want.split("\n")[1:]
+        how = ("the same lines with another multiplicity" if set(gl) == set(wl) and sorted(gl) != sorted(wl)
+               else "the same lines in another order" if sorted(gl) == sorted(wl) else "different lines")
+        raise Violation(f"{who}: message lines differ ({how}: {len(gl)} printed, {len(wl)} returned by the API): cli={got!r} api={want!r}",
+                        case, "cli-messages")
+
+
+def expect_cli(rc, out, view, flags, case, who, rec=None, hints_may_differ=False):
+    """Oracle for one CLI run of the text/--json/--strict forms against the in-process view of the same (re-loaded) input."""
+    if view["ok"] and "--strict" in flags and view["warnings"]:
+        if rc != 1 or not out.startswith("CONFIG WARNINGS"):
+            raise Violation(f"{who}: warnings present, expected exit 1 + CONFIG WARNINGS, got exit={rc} {out[:40]!r}", case, "cli-strict")
+        got_w = [ln for ln in out.split("\n")[1:] if ln != ""]
+        want_w = [x for w in sorted(view["warnings"]) for x in w.split("\n")]
+        if got_w != want_w:
+            raise Violation(f"{who}: warning lines differ: cli={got_w!r} api={want_w!r}", case, "cli-warnings")
+    elif view["ok"] and "--json" in flags:
+        compare_cli_json(rc, out, view, case, who)
+    else:
+        compare_cli_text(rc, out, view, case, who, rec, hints_may_differ)
+
+
+_JSON_ANY = "__c14_any__"
+
+
+def _json_prepare(x, counter):
+    """The normalised config with wildcards where JSON has no form: values -> {_JSON_ANY: 1}, keys -> _JSON_ANY<n>."""
+    if isinstance(x, dict):
+        out = {}
+        for k, v in x.items():
+            if not (k is None or isinstance(k, (str, int, float, bool))):
+                counter[0] += 1
+                k = f"{_JSON_ANY}{counter[0]}"
+            out[k] = _json_prepare(v, counter)
+        return out
+    if isinstance(x, (list, tuple)):
+        return [_json_prepare(v, counter) for v in x]
+    if isinstance(x, (set, frozenset, bytes, datetime.date)):
+        return {_JSON_ANY: 1}
+    return x
+
+
+def _json_match(got, want) -> bool:
+    if isinstance(want, dict) and set(want) == {_JSON_ANY}:
+        return True
+    if isinstance(want, dict):
+        if not isinstance(got, dict) or len(got) != len(want):
+            return False
+        plain = [k for k in want if not k.startswith(_JSON_ANY)]
+        if any(k not in got or not _json_match(got[k], want[k]) for k in plain):
+            return False
+        rest = [k for k in got if k not in plain]  # keys the CLI chose for the wildcard keys: pair them up by value
+        for wk in (k for k in want if k.startswith(_JSON_ANY)):
+            hit = next((gk for gk in rest if _json_match(got[gk], want[wk])), None)
+            if hit is None:
+                return False
+            rest.remove(hit)
+        return True
+    if isinstance(want, list):
+        return isinstance(got, list) and len(got) == len(want) and all(_json_match(g, w) for g, w in zip(got, want))
+    return canon(got) == canon(want)
 
 
 def compare_cli_json(rc, out, view, case, who):
@@ -867,8 +1177,9 @@ def compare_cli_json(rc, out, view, case, who):
         raise Violation(f"{who}: accepted config but stdout is not JSON: {out[:120]!r} (exit={rc})", case, "cli-json")
     if rc != 0 or not isinstance(doc, dict) or "normalized" not in doc:
         raise Violation(f"{who}: accepted config but exit={rc} / no 'normalized' in output", case, "cli-json")
-    want = json.loads(json.dumps(view["norm"], ensure_ascii=False))
-    if canon(doc["normalized"]) != canon(want):
+    # what JSON cannot carry (a date, bytes, a set in a pass-through leaf, as a value or as a key) may be rendered any way
+    want = json.loads(json.dumps(_json_prepare(view["norm"], [0]), ensure_ascii=False))
+    if not _json_match(doc["normalized"], want):
         raise Violation(f"{who}: normalised dict differs from validate_config's", case, "cli-norm")
     if list(doc.get("warnings") or []) != sorted(view["warnings"]):
         raise Violation(f"{who}: warnings differ: {doc.get('warnings')!r} vs {sorted(view['warnings'])!r}", case, "cli-warnings")
@@ -886,31 +1197,45 @@ def check_cli_inprocess(cfg, case, rec, tmpdir):
     path = os.path.join(tmpdir, "cfg.yaml")
     with open(path, "w", encoding="utf-8") as f:
         f.write(text)
-    for flags in (([], ["--json"], ["--strict"]) if view["ok"] else ([],)):
-        argv = ["validate_config.py", *flags, path]
+    # every flag form (also on rejected configs: the verdict and the messages do not depend on the output mode), the flag
+    # after the path, the file read from STDIN ('-'); the packaged shim and the repository's scripts/validate_config.py
+    # (each main() call re-parses the file with the pure-python YAML loader, ~1.5 ms: the list is kept short; the byte target
+    # runs the three basic forms only)
+    ok = view["ok"]
+    light = bool(os.environ.get("C14_CLI_LIGHT"))
+    runs = [("shim", None, [*flags, path], None, view) for flags in ([], ["--json"]) + ((["--strict"],) if ok else ())]
+    if ok and not light:
+        runs.append(("shim", None, [path, "--strict", "--json"], None, view))  # flags after the path; --strict wins over --json
+    if not light:
+        runs.append(("shim", None, ["-"] if ok else ["--strict", "-"], text, view))
+    root = root_script_module()
+    if root is not None:
+        runs += [("script", root, [*flags, path], None, view)
+                 for flags in (([],) if light else ([], ["--strict"]) + ((["--json"],) if ok else ()))]
+    jt = None if light else json_roundtrip(cfg)
+    if jt is not None:  # the same input as a JSON document
+        jtext, jarg = jt
+        jview = view if canon(jarg) == canon(arg) else validator_view(jarg, case, rec)
+        if jview is not None:
+            jpath = os.path.join(tmpdir, "cfg.json")
+            with open(jpath, "w", encoding="utf-8") as f:
+                f.write(jtext)
+            runs.append(("shim", None, [jpath], None, jview))
+    for name, mod, args, stdin_text, vw in runs:
+        flags = [a for a in args if a.startswith("--")]
+        what = f"{name} main({' '.join('FILE' if a in (path, os.path.join(tmpdir, 'cfg.json')) else a for a in args)})"
         try:
-            rc, out, err = _run_main(argv)
+            rc, out, err = _run_main(["validate_config.py", *args], mod, stdin_text)
         except SystemExit as e:
-            raise Violation(f"CLI main({flags}) exited via SystemExit({e.code})", case, "cli-systemexit")
+            raise Violation(f"CLI {what} exited via SystemExit({e.code})", case, "cli-systemexit")
         except Exception as e:
             if _lev_typeerror(e, arg) and _is_known(rec, KNOWN_NONSTR):
                 return "known"
-            if isinstance(e, AttributeError) and view["ok"] and nonmapping_leak(view["norm"]) and _is_known(rec, KNOWN_NONMAPPING):
+            if isinstance(e, AttributeError) and vw["ok"] and nonmapping_leak(vw["norm"]) and _is_known(rec, KNOWN_NONMAPPING):
                 return "known"
             fr = _innermost(e)
-            raise Violation(f"CLI main({flags}) raised {type(e).__name__}: {e}", case, f"cli-raises:{type(e).__name__}@{fr.name if fr else '?'}")
-        who = f"main({' '.join(flags) or 'text'})"
-        if flags == ["--json"] and view["ok"]:
-            compare_cli_json(rc, out, view, case, who)
-        elif flags == ["--strict"] and view["ok"] and view["warnings"]:
-            if rc != 1 or not out.startswith("CONFIG WARNINGS"):
-                raise Violation(f"{who}: warnings present, expected exit 1 + CONFIG WARNINGS, got exit={rc} {out[:40]!r}", case, "cli-strict")
-            got_w = [ln for ln in out.split("\n")[1:] if ln != ""]
-            want_w = [x for w in sorted(view["warnings"]) for x in w.split("\n")]
-            if got_w != want_w:
-                raise Violation(f"{who}: warning lines differ", case, "cli-warnings")
-        else:
-            compare_cli_text(rc, out, view, case, who)
+            raise Violation(f"CLI {what} raised {type(e).__name__}: {e}", case, f"cli-raises:{type(e).__name__}@{fr.name if fr else '?'}")
+        expect_cli(rc, out, vw, flags, case, what, rec)
     return "ok"
 
 
@@ -928,6 +1253,8 @@ def check_total(cfg, rec=None, tmpdir=None, labels=(), with_cli=True):
                 out_labels.append("warnings")
         elif any("did you mean" in ln for ln in view["lines"]):
             out_labels.append("suggestion")
+        if has_dup_lines(view):
+            out_labels.append("dup_message_lines")
     if not with_cli:
         return view, out_labels
     own_tmp = None
@@ -1050,12 +1377,16 @@ def leafwise_space():
         spec = LEAVES[path]
         for v in _valid_values(spec, big=True):
             out.append(("leaf", path, "valid", v))
-        for v in _outside_values(spec):
+        for v in _outside_values(spec) + _PATH_OUTSIDE.get(path, []):
             out.append(("leaf", path, "outside", v))
         for v in WRONG:
             out.append(("leaf", path, "wrongtype", v))
         for v in SPECIAL:
             out.append(("leaf", path, "special", v))
+        for v in _FREE_NEAR.get(path, []):
+            out.append(("leaf", path, "near", v))
+        for v in NATIVE:
+            out.append(("leaf", path, "native", v))
     for sec in SECTION_PATHS:
         if sec:
             for v in SECTION_REPLACEMENTS:
@@ -1065,7 +1396,7 @@ def leafwise_space():
     for k in unknown:
         if k not in tops:
             out.append(("topkey", (k,), "unknown", 1))
-    for k in NONSTR_KEYS:
+    for k in NONSTR_KEYS + NATIVE_KEYS:
         out.append(("topkey", (k,), "unknown", 1))
     return out
 
@@ -1248,8 +1579,8 @@ def sub_hashseed(rec, seed, shard, nshards, n=200):
 
 
 def replay_hashseed(case):
-    cfg = dec(case["cfg"])
-    diff = check_hashseed_batch([cfg])
+    cfgs = [dec(case["cfg"])] + [dec(c) for c in case.get("more") or []]  # one batch of child interpreters for all of them
+    diff = check_hashseed_batch(cfgs)
     if diff:
         msgs = {hs: r for hs, r in diff[0][1].items()}
         raise Violation(f"messages depend on PYTHONHASHSEED: {msgs}", case, "hashseed-dependent")
@@ -1259,15 +1590,19 @@ def replay_hashseed(case):
 # cli: real subprocesses
 # =====================================================================================================
 
-def _run_cli(args, cwd, hashseed):
+def _run_cli(args, cwd, hashseed, stdin_text=None, script=None):
+    """`python -m <args...>` (or `python <script> <args...>`) in a child process; bytes in, bytes out (no newline translation)."""
     env = _child_env(hashseed)
-    p = subprocess.run([sys.executable, "-m", *args], cwd=cwd, env=env, stdout=subprocess.PIPE, stderr=subprocess.PIPE)
+    cmd = [sys.executable, script, *args] if script else [sys.executable, "-m", *args]
+    p = subprocess.run(cmd, cwd=cwd, env=env, stdout=subprocess.PIPE, stderr=subprocess.PIPE,
+                       input=(stdin_text.encode("utf-8") if stdin_text is not None else None),
+                       stdin=(None if stdin_text is not None else subprocess.DEVNULL))
     return p.returncode, p.stdout.decode("utf-8", "replace"), p.stderr.decode("utf-8", "replace")
 
 
-def check_cli_case(cfg, hashseed="0", rec=None):
+def check_cli_case(cfg, hashseed="0", rec=None, forms=0):
     """Real subprocess forms vs the in-process view of the re-loaded file. Returns labels."""
-    case = {"cfg": enc(cfg), "hashseed": hashseed}
+    case = {"cfg": enc(cfg), "hashseed": hashseed, "forms": forms}
     rt = yaml_roundtrip(cfg)
     if rt is None:
         return ["cli_unrepresentable"]
@@ -1328,19 +1663,47 @@ def check_cli_case(cfg, hashseed="0", rec=None):
             else:
                 compare_cli_text(rc, stream, view, case, who, rec, hints_may_differ=True)
                 labels.append("umbrella_json")
+
+        # two more forms per case, rotating: the repository's scripts/validate_config.py, STDIN ('-'), --strict through the
+        # umbrella command, the default path (configs/config.yaml under the working directory)
+        script = os.path.join(_repo(), "scripts", "validate_config.py")
+        script = script if os.path.isfile(script) else None
+        extra = []
+        if forms < 0:
+            pass
+        elif forms % 3 == 0:
+            extra = [("python scripts/validate_config.py FILE", [path], None, True, []),
+                     ("python -m clematis.scripts.validate - <FILE", ["clematis.scripts.validate", "-"], text, False, [])]
+        elif forms % 3 == 1:
+            extra = [("python -m clematis validate --strict FILE", ["clematis", "validate", "--strict", path], None, False, ["--strict"]),
+                     ("python scripts/validate_config.py --strict FILE", ["--strict", path], None, True, ["--strict"])]
+        elif forms % 3 == 2:
+            os.makedirs(os.path.join(work, "configs"))
+            shutil.copyfile(path, os.path.join(work, "configs", "config.yaml"))
+            extra = [("python -m clematis validate  (default path configs/config.yaml)", ["clematis", "validate"], None, False, []),
+                     ("python -m clematis validate - <FILE", ["clematis", "validate", "-"], text, False, [])]
+        for who, args, stdin_text, use_script, flags in extra:
+            if use_script and script is None:
+                labels.append("no_root_script")
+                continue
+            rc, out, err = _run_cli(args, work, hashseed, stdin_text, script if use_script else None)
+            expect_cli(rc, out, view, flags, case, who, rec, hints_may_differ=True)
+        labels.append(f"forms_{forms % 3}" if forms >= 0 else "forms_none")
+        if has_dup_lines(view):
+            labels.append("dup_message_lines")
     finally:
         shutil.rmtree(work, ignore_errors=True)
     return labels
 
 
-def _minimise_cli(cfg, hashseed, rec, sig, budget=14):
+def _minimise_cli(cfg, hashseed, rec, sig, forms=0, budget=14):
     """Smallest single-key sub-config that still fails with the same signature (subprocess oracles: no Hypothesis shrink)."""
     best = None
     cands = _single_key_subconfigs(cfg) if isinstance(cfg, dict) else []
     cands.sort(key=lambda c: len(json.dumps(enc(c))))
     for c in cands[:budget]:
         try:
-            check_cli_case(c, hashseed, rec)
+            check_cli_case(c, hashseed, rec, forms)
         except Violation as v:
             if v.sig == sig:
                 best = v
@@ -1348,25 +1711,40 @@ def _minimise_cli(cfg, hashseed, rec, sig, budget=14):
     return best
 
 
+# fixed anchors of the subprocess forms (spread over the shards, every one runs in every run): an enumeration message
+# (braces), a tie-prone typo, the default config, and rejected configs whose message list REPEATS an entry
+CLI_ANCHORS = [
+    {"t2": {"backend": "x"}},
+    {"t5": 1},
+    {},
+    {"t3": {"allow_reflection": True, "reflection": {"backend": "llm"}, "llm": {"fixtures": {"enabled": True, "path": "  "}}},
+     "t2": {"k_retrieval": 0}},
+    {"t4": {"cache": {"namespaces": ["zz", "t2:semantic", "other", "zz"]}, "cooldowns": {1: 0, 2: 3}},
+     "perf": {"t2": {"reader": {"partitions": {"by": ["month", "month", "owner"]}}}}},
+    {"t1": {7: 1, "7": 2, "p\nb": 1}, "graph": {"q\nb": 1}, None: 1, "None": 2},
+]
+
+
 def sub_cli(rec, seed, shard, nshards, n=12):
     count = [0]
 
     def body(cv):
         cfg, labels = cv
-        hs = str(count[0] % 3)
+        hs, forms = str(count[0] % 3), (count[0] + shard) % 3
         count[0] += 1
         try:
-            out_labels = check_cli_case(cfg, hs, rec)
+            out_labels = check_cli_case(cfg, hs, rec, forms)
         except Violation as v:
-            raise (_minimise_cli(cfg, hs, rec, v.sig) or v)
+            raise (_minimise_cli(cfg, hs, rec, v.sig, forms) or v)
         nt = is_nontrivial(labels) and "cli_unrepresentable" not in out_labels
         rec.case(nontrivial=nt, dig=digest(enc(cfg)) if nt else None, labels=list(labels) + out_labels + ["hashseed_" + hs],
                  sample={"cfg": enc(cfg), "labels": out_labels} if nt else None)
 
-    # fixed anchors every run: an enumeration message (braces), a tie-prone typo, the default config
-    for cfg in ({"t2": {"backend": "x"}}, {"t5": 1}, {}):
+    for i, cfg in enumerate(CLI_ANCHORS):
+        if i % nshards != shard:
+            continue
         try:
-            out_labels = check_cli_case(cfg, "1", rec)
+            out_labels = check_cli_case(copy.deepcopy(cfg), "1", rec, i)
         except Violation as v:
             rec.violation("cli: " + v.message, v.case, v.sig)
             continue
@@ -1375,7 +1753,8 @@ def sub_cli(rec, seed, shard, nshards, n=12):
 
 
 def replay_cli(case):
-    check_cli_case(dec(case["cfg"]), str(case.get("hashseed", "0")), None)
+    # replay files written before the extra forms existed carry no "forms": they re-run exactly the forms they recorded
+    check_cli_case(dec(case["cfg"]), str(case.get("hashseed", "0")), None, int(case.get("forms", -1)))
 
 
 # =====================================================================================================
@@ -1439,6 +1818,42 @@ _GATES = [("perf", "enabled"), ("t2", "hybrid", "enabled"), ("t2", "quality", "e
           ("t2", "quality", "shadow"), ("perf", "parallel", "t1"), ("perf", "parallel", "t2"), ("graph", "merge", "enabled"),
           ("graph", "split", "enabled"), ("graph", "promotion", "enabled"), ("perf", "snapshots", "delta_mode")]
 
+# Switches only matter together (perf.enabled AND the feature flag AND ...), and a section's leaves are only READ while its
+# switch is on.  Uniform leaf picks almost never produce such a combination, so: curated switch sets, and for every switch
+# that is on a few more leaves drawn from the subtree it governs (in-range values incl. the boundaries 0 / 1 / null).
+_GATE_SETS = [
+    {("perf", "enabled"): True, ("perf", "metrics", "report_memory"): True, ("t2", "quality", "shadow"): True},
+    {("perf", "enabled"): True, ("perf", "metrics", "report_memory"): True, ("t2", "quality", "enabled"): True,
+     ("t2", "quality", "mmr", "enabled"): True, ("t2", "quality", "lexical", "enabled"): True, ("t2", "quality", "fusion", "enabled"): True},
+    {("perf", "enabled"): True, ("t2", "quality", "enabled"): True, ("t2", "quality", "normalizer", "enabled"): True,
+     ("t2", "quality", "aliasing", "enabled"): True},
+    {("perf", "enabled"): True, ("perf", "parallel", "enabled"): True, ("perf", "parallel", "t1"): True, ("perf", "parallel", "max_workers"): 2},
+    {("perf", "enabled"): True, ("perf", "metrics", "report_memory"): True, ("t2", "hybrid", "enabled"): True, ("t2", "hybrid", "walk_hops"): 2},
+    {("perf", "enabled"): True, ("t2", "reader", "mode"): "partition", ("perf", "t2", "reader", "partitions", "enabled"): True},
+    {("perf", "enabled"): True, ("perf", "snapshots", "delta_mode"): True, ("perf", "snapshots", "every_n_turns"): 1, ("t3", "apply_ops"): True},
+    {("graph", "enabled"): True, ("graph", "merge", "enabled"): True, ("graph", "split", "enabled"): True, ("graph", "promotion", "enabled"): True},
+    {("scheduler", "enabled"): True, ("scheduler", "policy"): "fair_queue"},
+    {("scheduler", "enabled"): True, ("perf", "enabled"): True, ("perf", "metrics", "report_memory"): True},
+    {("t3", "apply_ops"): True, ("t4", "enabled"): True, ("t4", "cache_bust_mode"): "on-apply", ("t4", "cache", "enabled"): True},
+    {("t4", "enabled"): False, ("t3", "apply_ops"): True},
+]
+# switch -> subtrees it governs
+_GATE_SCOPE = {
+    ("perf", "enabled"): [("perf",)], ("perf", "metrics", "report_memory"): [("perf",), ("t2", "quality")],
+    ("perf", "parallel", "enabled"): [("perf", "parallel")], ("perf", "parallel", "t1"): [("perf", "parallel"), ("t1",)],
+    ("perf", "parallel", "t2"): [("perf", "parallel"), ("t2",)], ("perf", "snapshots", "delta_mode"): [("perf", "snapshots"), ("t4",)],
+    ("t2", "hybrid", "enabled"): [("t2", "hybrid")], ("t2", "quality", "enabled"): [("t2", "quality")],
+    ("t2", "quality", "mmr", "enabled"): [("t2", "quality", "mmr")], ("t2", "quality", "shadow"): [("t2", "quality")],
+    ("graph", "enabled"): [("graph",)], ("graph", "merge", "enabled"): [("graph", "merge")], ("graph", "split", "enabled"): [("graph", "split")],
+    ("graph", "promotion", "enabled"): [("graph", "promotion")], ("scheduler", "enabled"): [("scheduler",)],
+    ("t3", "apply_ops"): [("t3",), ("t4",)],
+}
+
+
+def _under(path, prefix):
+    return path[:len(prefix)] == prefix
+
+
 _FREE_PATHS = sorted(p for p, sp in LEAVES.items() if sp[0] == "free")
 _FREE_NEAR = {
     ("t1", "decay"): [{"floor": "0.05"}, {"mode": "exp_floor", "rate": "0.6", "floor": "0.05"}, {"rate": "0.5"}, {"mode": "attn_quad", "alpha": "2"},
@@ -1451,6 +1866,37 @@ _FREE_NEAR = {
     ("t2", "tiers"): [("exact_semantic",), ["exact_semantic", "exact_semantic"], "exact_semantic"],
 }
 _FREE_NEAR = {p: v for p, v in _FREE_NEAR.items() if p in LEAVES}
+
+# Numbers INSIDE the pass-through mappings.  The validator documents rate, floor in [0, 1] and alpha >= 0 for t1.decay
+# (t1._compute_decay overflows in rate**distance beyond that and divides by zero for a negative alpha) and just "a number"
+# for t1.edge_type_mult.  Boundary values must be accepted AND run; values beyond are thrown at the validator as well:
+# whatever it still accepts must run.
+_DECAY_BOUNDARY = {"rate": [0, 1, 0.0, 1.0, "1", 5e-324, 0.999, "0.5"], "floor": [0, 1, "0", 1.0, 5e-324, 0.5],
+                   "alpha": [0, 0.0, 1e308, "inf", 5e-324, 3, "2"]}
+_DECAY_EXTREME = {"rate": [-1, -1e200, 1e200, "inf", "-inf", 2, 1e308, -0.5, 1.0000000000000002], "floor": [-1, "inf", "-inf", 1e308, 2, -5e-324],
+                  "alpha": [-1, -0.25, -1, -0.25, -1e308, "-inf", -1e-320, -4]}
+_ETM_NUMS = [0, -1, "inf", "-inf", 1e308, -1e308, 5e-324, 2, "1e-3", 1, 0.0, -0.0]
+# whole-leaf values outside the documented domain of t1.decay (leafwise / total: must be REJECTED or, if accepted, in range)
+_PATH_OUTSIDE = {
+    ("t1", "decay"): [{"mode": "attn_quad", "alpha": -1}, {"mode": "attn_quad", "alpha": -0.25}, {"rate": -1e200}, {"rate": 2}, {"rate": "inf"},
+                      {"rate": 1.0000000000000002}, {"floor": -0.1}, {"floor": "inf"}, {"floor": 1.5}, {"alpha": "-inf"}, {"alpha": -1e-320},
+                      {"mode": "exp_floor", "rate": 0.6, "floor": -1}],
+}
+
+
+def _draw_numeric_mapping(draw):
+    """(path, value): a t1.decay / t1.edge_type_mult mapping whose numbers sit on boundaries (or beyond, see above)."""
+    if draw(st.booleans()):
+        d = {}
+        mode = draw(st.sampled_from([None, "exp_floor", "attn_quad", "attn_quad"]))
+        if mode:
+            d["mode"] = mode
+        for k in draw(st.lists(st.sampled_from(["rate", "floor", "alpha"]), min_size=1, max_size=3, unique=True)):
+            pool = _DECAY_EXTREME[k] if draw(st.sampled_from([True, False, False])) else _DECAY_BOUNDARY[k]
+            d[k] = draw(st.sampled_from(pool))
+        return ("t1", "decay"), d
+    rels = draw(st.lists(st.sampled_from(["supports", "associates", "contradicts", "weird", ""]), min_size=1, max_size=4, unique=True))
+    return ("t1", "edge_type_mult"), {r: draw(st.sampled_from(_ETM_NUMS)) for r in rels}
 _WORLD_TEXTS = ["apple pear", "kiwi", "apple", "pear fig APPLE", "zzz", ""]
 
 
@@ -1461,8 +1907,16 @@ def runnable_cases(draw):
         assigns.update(g(draw))
     for p in draw(st.lists(st.sampled_from(_GATES), max_size=4, unique=True)):
         assigns[p] = True
-    k = draw(st.integers(3, 7))
+    if draw(st.booleans()):
+        for p, v in draw(st.sampled_from(_GATE_SETS)).items():
+            if p not in _GROUPED:
+                assigns[p] = v
     big = draw(st.sampled_from([False, False, True]))
+    for gate in [p for p in sorted(assigns) if p in _GATE_SCOPE and assigns[p] is True]:
+        scope = [p for p in _SOLO_PATHS if any(_under(p, pre) for pre in _GATE_SCOPE[gate]) and p not in _GATE_SCOPE and LEAVES[p][0] != "free"]
+        for p in (draw(st.lists(st.sampled_from(scope), max_size=3, unique=True)) if scope else []):
+            assigns.setdefault(p, copy.deepcopy(draw(st.sampled_from(_valid_values(LEAVES[p], big=big)))))
+    k = draw(st.integers(3, 7))
     for p in draw(st.lists(st.sampled_from(_SOLO_PATHS), min_size=k, max_size=k, unique=True)):
         vals = _valid_values(LEAVES[p], big=big)
         assigns.setdefault(p, copy.deepcopy(draw(st.sampled_from(vals))))
@@ -1476,7 +1930,8 @@ def runnable_cases(draw):
         kind = draw(st.sampled_from(["free", "free", "free", "validated", "section"]))
         if kind == "free":
             p = draw(st.sampled_from(_FREE_PATHS))
-            v = draw(st.sampled_from(WRONG + SPECIAL + [{1: 1, "a": 2}, {None: 1}, {"mode": 5}, {"rate": "x"}, {"supports": "x"}, ["bogus", 1], [None]]))
+            v = draw(st.sampled_from(WRONG + SPECIAL + [{1: 1, "a": 2}, {None: 1}, {"mode": 5}, {"rate": "x"}, {"supports": "x"}, ["bogus", 1], [None]]
+                                     + NATIVE + [{NATIVE_KEYS[0]: 1, "a": NATIVE[2]}, {NATIVE_KEYS[2]: [NATIVE[0]]}]))
             if p in _FREE_NEAR and draw(st.booleans()):
                 # almost-documented spellings (numbers as strings / ints / bools) a YAML author produces
                 v = draw(st.sampled_from(_FREE_NEAR[p]))
@@ -1490,13 +1945,21 @@ def runnable_cases(draw):
     if draw(st.sampled_from([True, False, False])):
         p = draw(st.sampled_from(sorted(_FREE_NEAR)))
         lenient.append([list(p), enc(copy.deepcopy(draw(st.sampled_from(_FREE_NEAR[p]))))])
+    if draw(st.sampled_from([True, False, False])):
+        p, v = _draw_numeric_mapping(draw)
+        lenient.append([list(p), enc(v)])
     # world: fixed non-trivial core + drawn variation
     w_ab = draw(st.sampled_from([0.9, 1.0, 0.5, -0.5]))
     rel = draw(st.sampled_from(["supports", "associates", "contradicts", "weird"]))
     extra_edge = draw(st.booleans())
     n_eps = draw(st.integers(3, 6))
     texts = [draw(st.sampled_from(_WORLD_TEXTS[:4])), draw(st.sampled_from(_WORLD_TEXTS))]
-    return {"assign": items, "lenient": lenient, "world": {"w_ab": w_ab, "rel": rel, "extra_edge": extra_edge, "n_eps": n_eps}, "texts": texts}
+    if draw(st.sampled_from([False, False, True])):
+        texts.append(draw(st.sampled_from(_WORLD_TEXTS)))  # a third turn: every-2-turns cadences fire, caches are warm
+    world = {"w_ab": w_ab, "rel": rel, "extra_edge": extra_edge, "n_eps": n_eps}
+    if draw(st.sampled_from([False, False, True])):
+        world["two_graphs"] = True
+    return {"assign": items, "lenient": lenient, "world": world, "texts": texts}
 
 
 def build_overrides(items):
@@ -1531,7 +1994,14 @@ def build_world(w):
         if s in ids and d_ in ids:
             gel_edges[f"{s}→{d_}"] = {"id": f"{s}→{d_}", "src": s, "dst": d_, "weight": wt, "rel": "coact", "attrs": {}}
     gel = {"nodes": {i: {"id": i} for i in ids}, "edges": gel_edges, "meta": {}}
-    return {"graphs": {"g1": {"nodes": nodes, "edges": edges}}, "eps": eps, "gel": gel, "version": "0", "agents": {"A": ["g1"]}}
+    graphs = {"g1": {"nodes": nodes, "edges": edges}}
+    active = ["g1"]
+    if w.get("two_graphs"):  # a second active graph: T1 merges across graphs / fans out two tasks under perf.parallel.t1
+        graphs["g0"] = {"nodes": [{"id": "a", "label": "apple", "tags": []}, {"id": "z", "label": "lime", "tags": ["kiwi"]}],
+                        "edges": [{"id": "f0", "src": "a", "dst": "z", "w": 0.7, "rel": "supports"},
+                                  {"id": "f1", "src": "z", "dst": "a", "w": -0.4, "rel": "contradicts"}]}
+        active = ["g1", "g0"]  # not in sorted order
+    return {"graphs": graphs, "eps": eps, "gel": gel, "version": "0", "agents": {"A": active}}
 
 
 def _leaf_diff(a, b, prefix=()):
@@ -1610,6 +2080,8 @@ def check_runnable(case, rec=None):
             d[p[-1]] = dec(v)
     W.reset_engine_globals()
     labels = ["lenient" if lenient else "table_valid"]
+    if any(tuple(p) in (("t1", "decay"), ("t1", "edge_type_mult")) and isinstance(dec(v), dict) and dec(v) for p, v in lenient):
+        labels.append("numeric_mapping")
     with W.sandbox("c14_run_") as root:
         eng = observe.Engine(build_world(case["world"]), root)
         base = eng.cfg({})
@@ -1653,7 +2125,15 @@ def check_runnable(case, rec=None):
         for p, _ in case["assign"]:
             if tuple(p) in _GATES:
                 labels.append("gate_" + ".".join(p))
-        nt = ndiff >= 3 and turns_ok == 2
+        got = {tuple(p): dec(v) for p, v in case["assign"]}
+        for i, gs in enumerate(_GATE_SETS):
+            if all(p in got and canon(got[p]) == canon(v) for p, v in gs.items()):
+                labels.append(f"gateset_{i}")
+        if len(case["texts"]) > 2:
+            labels.append("turns_3")
+        if case["world"].get("two_graphs"):
+            labels.append("graphs_2")
+        nt = ndiff >= 3 and turns_ok == len(case["texts"])
         if rec is not None:
             rec.case(nontrivial=nt, dig=digest(case) if nt else None, labels=labels + [f"off_default>={min(ndiff, 6)}"],
                      sample={"overrides": enc(overrides), "texts": case["texts"], "leaves_off_default": ndiff} if nt else None)
@@ -1733,8 +2213,8 @@ def decode_bytes(data: bytes):
             break
         path = r.choice(LEAF_PATHS)
         spec = LEAVES[path]
-        cls = r.choice(["valid", "valid", "outside", "wrongtype", "special"])
-        pool = {"valid": _valid_values(spec), "outside": _outside_values(spec), "wrongtype": WRONG, "special": SPECIAL}[cls]
+        cls = r.choice(["valid", "valid", "outside", "wrongtype", "special", "valid", "outside", "wrongtype", "special", "native"])
+        pool = {"valid": _valid_values(spec), "outside": _outside_values(spec), "wrongtype": WRONG, "special": SPECIAL, "native": NATIVE}[cls]
         d = _descend(cfg, path[:-1])
         if d is None:
             continue
@@ -1746,7 +2226,10 @@ def decode_bytes(data: bytes):
     for _ in range(m):
         if r.left() <= 0:
             break
-        op = r.choice(["typo", "randkey", "nonstr", "section_repl"])
+        op = r.choice(["typo", "randkey", "nonstr", "section_repl", "dup"])
+        if op == "dup":
+            apply_dup(r, cfg, labels)
+            continue
         sec = r.choice(SECTION_PATHS)
         if op == "section_repl":
             if not sec:
@@ -1799,6 +2282,7 @@ def sub_atheris(rec, seed, shard, nshards, runs=3000):
         env = dict(os.environ)
         env["C14_FUZZ_OUT"] = work
         env["C14_FUZZ_KNOWN"] = ",".join(sorted(rec.known))
+        env["C14_CLI_LIGHT"] = "1"
         cmd = [sys.executable, target, f"-runs={int(runs)}", f"-seed={seed % (2 ** 31 - 1) + 1}", "-max_len=96",
                f"-artifact_prefix={work}/", "-verbosity=0", corpus]
         seeds = os.path.join(VERIF, "corpus", "C14")
@@ -1936,11 +2420,12 @@ KNOWN_PROBES = {
     KNOWN_CLI_JSON: probe_cli_json,
 }
 
+# (shards are started in this order: the one long single shard first, the short ones last)
 SUBCHECKS = [
-    Sub("total", sub_total, quick={"n": 600}, thorough={"n": 6500}, shards_quick=4, shards_thorough=16, replay=replay_total),
-    Sub("leafwise", sub_leafwise, quick={}, thorough={}, shards_quick=4, shards_thorough=8, exhaustive=True, replay=replay_leafwise),
+    Sub("atheris", sub_atheris, quick={"runs": 4000}, thorough={"runs": 80000}, shards_quick=1, shards_thorough=4, replay=replay_total),
+    Sub("total", sub_total, quick={"n": 500}, thorough={"n": 4000}, shards_quick=4, shards_thorough=16, replay=replay_total),
+    Sub("cli", sub_cli, quick={"n": 8}, thorough={"n": 50}, shards_quick=4, shards_thorough=16, replay=replay_cli),
     Sub("hashseed", sub_hashseed, quick={"n": 200}, thorough={"n": 2500}, shards_quick=2, shards_thorough=8, replay=replay_hashseed),
-    Sub("cli", sub_cli, quick={"n": 10}, thorough={"n": 95}, shards_quick=4, shards_thorough=16, replay=replay_cli),
+    Sub("leafwise", sub_leafwise, quick={}, thorough={}, shards_quick=4, shards_thorough=8, exhaustive=True, replay=replay_leafwise),
     Sub("runnable", sub_runnable, quick={"n": 75}, thorough={"n": 650}, shards_quick=4, shards_thorough=16, replay=replay_runnable),
-    Sub("atheris", sub_atheris, quick={"runs": 4000}, thorough={"runs": 100000}, shards_quick=1, shards_thorough=4, replay=replay_total),
 ]
